@@ -913,9 +913,9 @@ func C18() *kit.Spec {
 		SimTimeNote: "none: the library has no timers; logical steps = yield points executed under the scheduler",
 		NumRuns: func(tier string) int {
 			if tier == "thorough" {
-				return 12000
+				return 24000
 			}
-			return 480
+			return 640
 		},
 		Run: func(c *kit.Ctx) {
 			if en := get(c); en != nil {
